@@ -100,12 +100,15 @@ def c09(res, tier, seed, replay):
         {"hist": [["RBegin", "r1"], ["RAttachNew", "r1"], ["RGetShared", "r1"], ["RBegin", "r2"], ["RAttachShared", "r2"], ["REnd", "r2"],
                   ["RGetShared", "r1"], ["REnd", "r1"]]},
         {"hist": [["WBegin", ""], ["WAttach", ""], ["RBegin", "r1"], ["WFail", ""], ["RAttachNew", "r1"], ["REnd", "r1"]]},
+        # a shared object exists; the next batch fails while a reader stands between look-up and lock
+        {"hist": [["WBegin", ""], ["WAttach", ""], ["WCommit", ""], ["WBegin", ""], ["WAttach", ""], ["RBegin", "r1"], ["WFail", ""],
+                  ["RAttachCold", "r1"], ["REnd", "r1"], ["RBegin", "r2"], ["RAttachNew", "r2"], ["REnd", "r2"]]},
     ]
     nb = 240 if tier == "quick" else 3000
     behs = vlib.tlc_simulate("ShardCacheSim", "ShardCache.sim.cfg", nb, 200, seed, timeout=1200)
     # (the schedule of C09-a kills the process: it gets chunks of its own)
     chunk = 60
-    behs = [canon[1]] * chunk + ([canon[0], canon[2]] * 8 + behs)
+    behs = [canon[1]] * chunk + ([canon[0], canon[2], canon[3], canon[3]] * 8 + behs)
     res.coverage["forced_schedule_behaviours"] = len(behs)
     forced = 0
     fresults = []
